@@ -1420,7 +1420,11 @@ func coldStart(p *Plan, seed uint64) *Plan {
 // statements of C02, C03, C07 and C10 hold for every history; what is checked is what no order of the requests can
 // explain: see quiescentChecks and conc.stable-read).
 func concSlice(prop string, seed uint64, tier string, idx int) *Plan {
-	p := planC11(prop, seed, tier, 0)
+	variant := 0
+	if prop == "C04" {
+		variant = 1 // with the collection ticker and pushes that arrive at the instant of a tick: is what an acknowledged image names still there?
+	}
+	p := planC11(prop, seed, tier, variant)
 	p.Profile += " (concurrent histories for " + prop + ")"
 	if p.Knobs.Store == "dir" {
 		switch prop {
